@@ -19,6 +19,7 @@ LEVEL_NOTE = ("Bounds: vector length n = F_V+1, 1-2 inserts with 2-3 nt bodies; 
               "EcoFlex cassette/device vectors, MoClo entry/cassette vectors, YTK entry vector with a YTK-product-shaped insert "
               "(quick: 4 triples, thorough: all 8). Inserts are stub modules (overhangs + fragment); that real module classes "
               "deliver such values is C04. Trusted: z3, CPython, symx models.")
+LEVEL_NOTE_EXTRA = 'Also: a namesake of the product typed before (generic and typed-part next level); the product renumbered into the upstream next-level site/spacer; five triples in the quick tier.'
 TECHNIQUE = "bounded symbolic execution of the real Python source (symx) with z3 across two assembly levels; replay on the real stack"
 EXPLANATION = "vector literal -> assemble -> next-level class on the symbolic product; the relation between the hand-written literals is decided for all inserts in the bound"
 ASSUMPTIONS = [
